@@ -1162,6 +1162,10 @@ func (c *Cluster) gcProxySessions(activeNodes []string) {
 // For example, a remote node is restarted or the cluster is rehashed without the node.
 func (c *Cluster) gcProxySessionsForNode(node string) {
 	n := c.nodes[node]
+	if n == nil {
+		// Not a remote node: the leader's list of active nodes may lack this node itself.
+		return
+	}
 	n.lock.Lock()
 	msess := n.msess
 	n.msess = make(map[string]struct{})
